@@ -15,6 +15,14 @@
 #include <mutex>
 #include <thread>
 struct TP { std::string name; std::vector<std::string> ops; };
+// The logical keys x / y / z are realised by strings that hash to shard 0 of the map's 64 shards (Hash{}(key) & 63, as
+// ConcurrentHashMap::shardFor computes it): cleanup()'s collect pass reads shard 0 first, so the window up to its erase pass
+// spans the 63 other shard locks and a random schedule has a real chance to place another caller's draw inside it.
+static std::string realKey(char k)
+{
+  for (int i = 0; i < 100000; ++i) { std::string c = std::string(1, k) + std::to_string(i); if ((std::hash<std::string>{}(c) & 63) == 0) return c; }
+  return std::string(1, k);
+}
 static long long vsec() { return vf::virtualAdvanceNs() / 1000000000LL; }
 static std::string runOne(int rate, int burst, const std::vector<TP> &prog, const vf::Options &opt)
 {
@@ -47,12 +55,12 @@ static std::string runOne(int rate, int burst, const std::vector<TP> &prog, cons
           if (op == "S") { std::this_thread::sleep_for(std::chrono::seconds(1)); continue; }
           if (op == "O") { { std::lock_guard<std::mutex> lk(gate->m); gate->open = true; } gate->cv.notify_all(); continue; }
           if (op == "G") { std::unique_lock<std::mutex> lk(gate->m); gate->cv.wait(lk, [&] { return gate->open; }); continue; }
-          if (op[0] == 'R' && op.size() >= 2) { std::string key(1, op[1]); long long t0 = vsec(); m->removeKey(key); tr->add(vf::Ev("Remove").str("t", tp.name).str("k", key).i("t0", t0).i("t1", vsec())); continue; }
+          if (op[0] == 'R' && op.size() >= 2) { std::string key(1, op[1]); long long t0 = vsec(); m->removeKey(realKey(op[1])); tr->add(vf::Ev("Remove").str("t", tp.name).str("k", key).i("t0", t0).i("t1", vsec())); continue; }
           if (op[0] == 'K' && op.size() >= 2) { int d = op[1] - '0'; long long t0 = vsec(); m->cleanup(std::chrono::seconds(d)); tr->add(vf::Ev("Cleanup").str("t", tp.name).i("d", d).i("t0", t0).i("t1", vsec())); continue; }
           if (op[0] != 'C' || op.size() < 3) continue;
           int n = op[1] - '0'; std::string key(1, op[2]);
           long long t0 = vsec();
-          bool ok = m->tryConsume(key, (double)n);
+          bool ok = m->tryConsume(realKey(op[2]), (double)n);
           long long t1 = vsec();
           tr->add(vf::Ev("Consume").str("t", tp.name).str("k", key).i("n", n).b("ok", ok).i("t0", t0).i("t1", t1));
         }
